@@ -458,7 +458,14 @@ fn check_expect(case: &ExpectCase) -> CheckResult {
 }
 
 pub fn run(args: &Args) -> i32 {
+    // child shard of the wire-lab sub-check
+    if args.shard.is_some() {
+        let total = args.cases(1_200, 20_000);
+        let st = super::c18_lab::child(args, total);
+        return engine::shard::child_finish(args, &st);
+    }
     let mut ev = Evidence::new(args, "exploration");
+    ev.rule(super::c18_lab::SUB, super::c18_lab::rule());
     ev.rule(
         "codec",
         "HeaderV2::new(cmd, src, dst).into_bytes() for generated IPv4/IPv6 addresses is read back by an independent byte-level reading of the PROXY v2 specification and by parse_v2_header (same addresses and command, whole output consumed); arbitrary and near-miss byte strings: the parser accepts only a complete v2 header, consumes exactly 16 + declared length, and its addresses equal the block's bytes. Non-trivial: a round trip or a complete header; distinct by case hash.",
@@ -473,5 +480,6 @@ pub fn run(args: &Args) -> i32 {
     ev.floor("expect", "tlv_tail", 0.1);
     engine::run_pbt(&mut ev, args, "codec", args.cases(60_000, 2_000_000), codec_strategy, check_codec);
     engine::run_pbt(&mut ev, args, "expect", args.cases(20_000, 600_000), expect_strategy, check_expect);
+    engine::shard::run_sharded(&mut ev, args, super::c18_lab::SUB, 16, std::time::Duration::from_secs(args.tier.pick(600, 3600)));
     ev.finish()
 }
